@@ -12,18 +12,18 @@ import (
 
 // EvalCtx evaluates contract expressions against a symbolic state.
 type EvalCtx struct {
-	c     *FnCtx
-	p     *Path
-	env   map[string]Val
-	heap  *HeapView
-	old   *HeapView
-	oldNow string
-	pkg   *types.Package
+	c        *FnCtx
+	p        *Path
+	env      map[string]Val
+	heap     *HeapView
+	old      *HeapView
+	oldNow   string
+	pkg      *types.Package
 	ghostOld map[string]string
-	depth int
-	inQuant bool
-	callsOv map[string]string // calls(name) values inside an applied contract
-	retOv   map[string]Val    // ret(name): what the function-valued argument returned
+	depth    int
+	inQuant  bool
+	callsOv  map[string]string // calls(name) values inside an applied contract
+	retOv    map[string]Val    // ret(name): what the function-valued argument returned
 }
 
 func (e *EvalCtx) fail(format string, a ...interface{}) Val {
@@ -1049,9 +1049,10 @@ func (c *FnCtx) finishContractOld(p *Path, fc *FuncContract, fn *ssa.Function, r
 }
 
 // havocLoc: one entry of a modifies clause.
-//   x.f      field f of the object x denotes          x.*   every field of that object
-//   T.f      field f of every object of type T        T.*
-//   elems(e) backing store of slice e                 ghost variable name         *  everything
+//
+//	x.f      field f of the object x denotes          x.*   every field of that object
+//	T.f      field f of every object of type T        T.*
+//	elems(e) backing store of slice e                 ghost variable name         *  everything
 func (c *FnCtx) havocLoc(p *Path, ec *EvalCtx, loc string) {
 	for _, t := range c.resolveLoc(p, ec, loc) {
 		c.havoc(&p.heap, t.prefix, t.ref)
